@@ -87,6 +87,12 @@ KILL = [
 ''', '', 'C13:nop-never-reaches-the-derivation'),
     ('split-skips-a-char', ['C14'], 'selfies/utils/selfies_utils.py::split_selfies', 'selfies/utils/selfies_utils.py',
      'left_idx = right_idx + 1', 'left_idx = right_idx + 2', 'output-is-the-scanned-prefix'),
+    ('len-counts-closing-brackets', ['C14'], 'selfies/utils/selfies_utils.py::len_selfies', 'selfies/utils/selfies_utils.py',
+     'return selfies.count("[") + selfies.count(".")', 'return selfies.count("]") + selfies.count(".")',
+     'C14:len-counts-opening-brackets-and-dots'),
+    ('len-forgets-dots', ['C14'], 'selfies/utils/selfies_utils.py::len_selfies', 'selfies/utils/selfies_utils.py',
+     'return selfies.count("[") + selfies.count(".")', 'return selfies.count("[")',
+     'C14:len-zero-iff-no-bracket-no-dot'),
 ]
 
 # edits that do not change behaviour: every clause must still be proved (guards against brittle proofs)
@@ -107,6 +113,8 @@ BENIGN = [
     ('index-renamed-local', 'selfies/grammar_rules.py::get_index_from_selfies', 'selfies/grammar_rules.py',
      [('for i, c in enumerate(reversed(symbols)):', 'for pos, c in enumerate(reversed(symbols)):'),
       ('(len(INDEX_CODE) ** i)', '(len(INDEX_CODE) ** pos)')]),
+    ('len-summands-swapped', 'selfies/utils/selfies_utils.py::len_selfies', 'selfies/utils/selfies_utils.py',
+     [('return selfies.count("[") + selfies.count(".")', 'n_dots = selfies.count(".")\n    return n_dots + selfies.count("[")')]),
 ]
 
 
